@@ -22,6 +22,8 @@ N10 getattr(x, "name") / setattr(x, "name", v) with an identifier literal  ==>  
 
 N11 boolean constants produced by substitution are folded (True or x, if False: ..., see _FoldBool)
 
+N12 module-level NAME = <number> (bound once) read in a function of the module where it is not shadowed  ==>  the number
+
 N2  dict.update with keywords / a literal dict on such an attribute, as a statement
         self._cache.update(a=x, b=y)      /     self._cache.update({"a": x, "b": y})
     ==> self._cache["a"] = x; self._cache["b"] = y      (same order; dict.update assigns the keys one after another)
@@ -1145,9 +1147,48 @@ def _inline_noreturn(tree):
     return done
 
 
+def _fold_numeric_constants(tree):
+    """N12: a module-level  NAME = <number>  (bound once in the module, no `global NAME` anywhere) read inside a function of the same module, where NAME is not a
+    parameter or local of that function, is replaced by the number (a literal moved to a named constant reads like the literal)."""
+    counts, vals = {}, {}
+    for st in tree.body:
+        if isinstance(st, ast.Assign):
+            for t in st.targets:
+                for x in ast.walk(t):
+                    if isinstance(x, ast.Name):
+                        counts[x.id] = counts.get(x.id, 0) + 1
+            if len(st.targets) == 1 and isinstance(st.targets[0], ast.Name) and isinstance(st.value, ast.Constant) and isinstance(st.value.value, (int, float)) and not isinstance(st.value.value, bool):
+                vals[st.targets[0].id] = st.value
+        elif isinstance(st, (ast.AugAssign, ast.AnnAssign)) and isinstance(st.target, ast.Name):
+            counts[st.target.id] = counts.get(st.target.id, 0) + 2
+    for x in ast.walk(tree):
+        if isinstance(x, (ast.Global, ast.Nonlocal)):
+            for g in x.names:
+                vals.pop(g, None)
+    vals = {k: v for k, v in vals.items() if counts.get(k) == 1}
+    if not vals:
+        return 0
+    done = 0
+    for fn in [n for n in ast.walk(tree) if isinstance(n, (ast.FunctionDef, ast.AsyncFunctionDef))]:
+        sc = _Scope()
+        for st in fn.body:
+            sc.visit(st)
+        shadow = set(sc.bind) | sc.bad | {a.arg for a in fn.args.posonlyargs + fn.args.args + fn.args.kwonlyargs}
+        use = {k: v for k, v in vals.items() if k not in shadow}
+        if not use:
+            continue
+        before = sum(1 for x in ast.walk(fn) if isinstance(x, ast.Name) and x.id in use and isinstance(x.ctx, ast.Load))
+        if before:
+            sub = _ConstSubst(use)
+            fn.body = [sub.visit(st) for st in fn.body]
+            done += before
+    return done
+
+
 def normalise(tree, relpath=None):
     del _INLINED[:]
     _RELPATH[0] = relpath
+    n_const = _fold_numeric_constants(tree)
     n_alias = n_upd = 0
     n_dict = 0
     for fn in [n for n in ast.walk(tree) if isinstance(n, (ast.FunctionDef, ast.AsyncFunctionDef))]:
@@ -1186,4 +1227,4 @@ def normalise(tree, relpath=None):
     _Updates().visit(tree)
     n_upd = sum(1 for n in ast.walk(tree) if isinstance(n, ast.Assign)) - before
     ast.fix_missing_locations(tree)
-    return tree, {"aliases_inlined": n_alias, "update_keys_split": n_upd, "table_loops_unrolled": n_unrolled, "wrappers_inlined": n_inlined, "expression_helpers_inlined": n_expr, "noreturn_helpers_inlined": n_noret, "flags_inlined": n_flags, "dict_literals_propagated": n_dict, "any_all_expanded": aa.count, "getattr_setattr_folded": gs.count, "boolean_constants_folded": fb.count, "inlined_helpers": sorted(set(_INLINED))}
+    return tree, {"aliases_inlined": n_alias, "update_keys_split": n_upd, "table_loops_unrolled": n_unrolled, "wrappers_inlined": n_inlined, "expression_helpers_inlined": n_expr, "noreturn_helpers_inlined": n_noret, "flags_inlined": n_flags, "dict_literals_propagated": n_dict, "any_all_expanded": aa.count, "getattr_setattr_folded": gs.count, "numeric_constants_folded": n_const, "boolean_constants_folded": fb.count, "inlined_helpers": sorted(set(_INLINED))}
